@@ -645,6 +645,15 @@ def run_shard(spec, ctx):
             judge_flag_ops(ctx, ())
         ctx.exhaustive(f'all nesting words of length <= {maxlen} x all '
                        'probes x their configurations')
+        if ctx.tier == 'thorough':
+            # a seeded sample of the 10^4 words of length 4
+            rng = ctx.rng('depth4')
+            for _ in range(2400 // of):
+                word = tuple(rng.choice(CTX) for _ in range(4))
+                for pname, (probe, keys, cfgs) in P.items():
+                    label, kw = cfgs[rng.randrange(len(cfgs))]
+                    judge(ctx, word, pname, probe, keys, label, kw,
+                          top[(pname, label)])
     finally:
         functions.opcodes.clear()
         functions.opcodes.update(saved[0])
